@@ -4,7 +4,9 @@ Case: graph (V, edges with positive dyadic weights), initial field, constructor 
 (`Field`, `field_from_graph_and_data`, `field_from_coo_matrix_and_data`) and raw steps.
 Each step calls the real method on the one object; afterwards the whole object
 (V, edges, weights, field) is written in the model's text form.  The Lean model replays
-the whole history (`fieldhist` line).  Oracle, independent of the model:
+the whole history (one `fieldhist` line: dtype flag of the constructor data, graph, field, steps; `sete` / `setw`
+steps replace the edges / weights in place and are model operations, refused edits included).  Oracle, independent of
+the model:
 
   * an in-place operator gives the direct definition applied to the field as it was
     (closed-neighbourhood max/min per iteration, adjacency product per iteration);
@@ -85,7 +87,7 @@ def state_text(F):
     W = np.asarray(F.weights, dtype=float).ravel().tolist()
     es = " ".join(f"{int(a)}>{int(b)}:{fr(w)}" for (a, b), w in zip(E, W))
     cs = " | ".join(frs(c) for c in cols_of(F.field))
-    return f"{int(F.V)} | {es} | {cs}"
+    return f"{int(F.V)} | {es} | {cs} | {int(np.asarray(F.field).dtype == np.float64)}"
 
 
 def gtxt(V, E):
@@ -169,47 +171,67 @@ def run_history(case):
     V0 = case["V"]
     fails, tags, trail, toks = [], ["fieldhist", "ctor=" + case.get("ctor", "Field")], [], []
     obs = [state_text(F)]
-    line0 = f"fieldhist {gtxt(V0, case['edges'])} {ftxt(np.array(case['field'], dtype=float).reshape(V0, -1))}"
+    # the model is told the dtype of the data given to the constructor and predicts the dtype flag from then on
+    line0 = (f"fieldhist {int(case.get('dtype', 'float64') == 'float64')} {gtxt(V0, case['edges'])} "
+             f"{ftxt(np.array(case['field'], dtype=float).reshape(V0, -1))}")
     mutated = None
 
     def fail(msg):
         fails.append(f"after {' -> '.join(trail) or 'construction'}: {msg}")
 
-    segments = []
-
     for step in case["steps"]:
         name = step[0]
         V = int(F.V)
         if name in ("sete", "setw"):
-            # the graph of the object is replaced in place (same vertices, same number of edges): the model is
-            # re-synchronised with the object (a new `fieldhist` line starts from the state observed now), and every
-            # later operation must answer for the new graph - nothing remembered from the old one
+            # the graph of the object is replaced in place (same vertices; `bad` variants have a wrong number of
+            # edges / an out-of-range vertex and must be refused with the object untouched): the model carries the
+            # edit (FieldOp.setEdges / setWeights) and every later operation must answer for the new graph
             E_now = np.asarray(F.edges).reshape(-1, 2)
             if not len(E_now):
                 continue
             sub = random.Random(step[1])
+            bad = sub.random() < 0.12
+            fld_before = np.array(F.field, copy=True)
             try:
                 if name == "sete":
                     perm = list(range(V)); sub.shuffle(perm)
                     newE = np.array([[perm[int(a)], perm[int(b)]] for a, b in E_now.tolist()], dtype=E_now.dtype)
-                    if step[2] == "assign":
+                    how = step[2]
+                    if bad:
+                        how = "set_edges"          # only the method has guards
+                        if sub.random() < 0.5:
+                            newE = newE[:-1] if len(newE) > 1 else np.vstack([newE, newE])
+                        else:
+                            newE[sub.randrange(len(newE)), sub.randrange(2)] = V + sub.randrange(3)
+                    tok = f"sete {len(newE)} " + " ".join(f"{int(a)} {int(b)}" for a, b in newE.tolist())
+                    if how == "assign":
                         F.edges = newE
                     else:
                         F.set_edges(newE)
-                    trail.append(f"{step[2]}(relabelled edges)")
+                    trail.append(f"{how}(relabelled edges{', malformed' if bad else ''})")
                 else:
-                    F.set_weights(np.array([sub.choice([0.5, 1.0, 2.0, 0.25, 3.0]) for _ in range(len(E_now))]))
-                    trail.append("set_weights(...)")
+                    nw = len(E_now) + (sub.choice([-1, 1]) if bad else 0)
+                    w = [sub.choice([0.5, 1.0, 2.0, 0.25, 3.0]) for _ in range(nw)]
+                    tok = f"setw {len(w)} " + " ".join(fr(x) for x in w)
+                    trail.append(f"set_weights({'wrong size' if bad else '...'})")
+                    F.set_weights(np.array(w))
+                text = "none"
+                if bad:
+                    fail(f"{name}: a malformed graph edit was accepted")
+            except ValueError as e:
+                text = "error:valueError"
+                if not bad:
+                    fail(f"{name} raised {type(e).__name__}: {e}")
             except Exception as e:      # noqa: BLE001
+                text = errname(e)
                 fail(f"{name} raised {type(e).__name__}: {e}")
-                continue
-            segments.append((line0, toks, obs))
-            fld_now = np.array(F.field, dtype=float).reshape(V, -1)
-            E3 = [[int(a), int(b), float(w)] for (a, b), w in zip(np.asarray(F.edges).reshape(-1, 2).tolist(),
-                                                                   np.asarray(F.weights, dtype=float).ravel().tolist())]
-            line0 = f"fieldhist {gtxt(V, E3)} {ftxt(fld_now)}"
-            toks, obs = [], [state_text(F)]
-            tags.append("graph-replaced-in-place")
+            if not np.array_equal(np.asarray(F.field), fld_before):
+                fail(f"{name} changed the field")
+            toks.append(tok)
+            obs.append(text + " ~ " + state_text(F))
+            tags.append("graph-replaced-in-place" if not bad else "graph-edit-refused")
+            if bad and text == "none":
+                break               # the object now holds a malformed graph: nothing more to learn from it
             continue
         before = np.array(F.field, dtype=float, copy=True).reshape(V, -1)
         dim = before.shape[1]
@@ -241,7 +263,7 @@ def run_history(case):
             if name in ("dil", "dilslow"):
                 n = step[1]
                 fast = name == "dil"
-                tok = f"dil {n} {int(fast and is64)}"
+                tok = f"dil {n} {int(fast)}"
                 label = f"dilation({n}, fast={fast})"
                 call = lambda: F.dilation(n, fast=fast)                    # noqa: E731
                 a = before
@@ -259,7 +281,7 @@ def run_history(case):
                 want_field = a
             elif name in ("open", "close"):
                 n = step[1]
-                tok = f"{name} {n} {int(is64)}"
+                tok = f"{name} {n}"
                 label = f"{name}ing({n})"
                 call = (lambda: F.opening(n)) if name == "open" else (lambda: F.closing(n))
                 a = before
@@ -288,7 +310,7 @@ def run_history(case):
                 arr = np.array(vals, dtype=dt)
                 if shape == "1d" and d2 == 1:
                     arr = arr.reshape(n)
-                tok = "set " + ftxt(np.array(vals, dtype=float).reshape(n, -1))
+                tok = f"set {int(dt == 'float64')} " + ftxt(np.array(vals, dtype=float).reshape(n, -1))
                 label = f"set_field({dt} {arr.shape})"
                 call = lambda: F.set_field(arr)                            # noqa: E731
                 expect_raise = bad
@@ -454,11 +476,10 @@ def run_history(case):
                      + ("" if want_field is before else f", expected {want_field.T.tolist()}"))
             if not ok and not np.array_equal(now, before):
                 fail(f"{label} raised and left the field modified")
-    segments.append((line0, toks, obs))
-    ntoks = sum(len(t) for _, t, _ in segments)
+    ntoks = len(toks)
     tags.append("fhist-len=" + str(min(ntoks, 12)))
-    return {"lines": [(l0 + f" {len(t)} " + " ".join(t)).rstrip() for l0, t, _ in segments],
-            "impl": [("hist", " # ".join(o)) for _, _, o in segments], "oracle": fails[0] if fails else None,
+    return {"lines": [(line0 + f" {len(toks)} " + " ".join(toks)).rstrip()],
+            "impl": [("hist", " # ".join(obs))], "oracle": fails[0] if fails else None,
             "nontrivial": bool(case["edges"]) and ntoks >= 3, "tags": tags, "mutated": mutated}
 
 
